@@ -21,7 +21,7 @@ type TV struct {
 // State maps heap/ghost names to their current SMT terms. Missing entries denote
 // the initial constant of that heap.
 type State struct {
-	m   map[string]string
+	m    map[string]string
 	b    map[string]string // heap name -> allocation counter at the time of its last write
 	bdef string            // bound for heaps not in b (allocation counter after the last call / loop havoc)
 	enc  *Enc
@@ -84,7 +84,7 @@ type EvalCtx struct {
 	old     *State
 	vars    map[string]TV
 	resolve func(name string, st *State) (TV, bool) // locals at a program point, read in state st
-	where   string                       // for error messages
+	where   string                                  // for error messages
 	depth   int
 }
 
